@@ -191,7 +191,7 @@ META = {
                    "arbitrary state it covers histories of ANY length whose intermediate sizes stay within the bound. "
                    "On top, all operation sequences up to the stated length from a fresh Weaver, followed by recreate + "
                    "match, must reproduce the transformed averages; shift/scale commute with the pipeline.",
-    "bounds": {"quick": "states of 3..4 points (reshaped working series +2); histories: all sequences of length <= 2 over "
+    "bounds": {"quick": "states of 3..4 points (reshaped working series +2), 14 operation variants + the two mixed ratio/value truncations in the single step; histories: all sequences of length <= 2 over "
                         "14 operation variants on 3 points, then recreate(n=2)+match with 3 strategies x 2 rules",
                "thorough": "states of 3..6 points; ALL histories up to length 3 over the 14-operation alphabet (symbolic arguments); a seventeenth of the length-4 histories; normalisation from states of <= 5 points"},
     "outside": ["series longer than the bound inside a step", "float rounding",
